@@ -6,6 +6,9 @@ is hashed).  Output: the same description shape as oracles.strict.doc_desc, so b
 Raises JsonSpecViolation when the tree breaks a structural rule of the specification.
 """
 import datetime
+import re
+
+RE_XSD_DATETIME = re.compile(r"-?[0-9]{4,}-[0-9]{2}-[0-9]{2}T[0-9]{2}:[0-9]{2}:[0-9]{2}(\.[0-9]+)?(Z|[+-][0-9]{2}:[0-9]{2})?")
 
 PROV = "http://www.w3.org/ns/prov#"
 XSD = "http://www.w3.org/2001/XMLSchema#"
@@ -100,7 +103,9 @@ class _Scope:
 def _time_desc(text):
     if not _is_str(text):
         raise JsonSpecViolation("time is not a string")
-    t = datetime.datetime.fromisoformat(str(text))
+    if not RE_XSD_DATETIME.fullmatch(str(text)):
+        raise JsonSpecViolation("not an xsd:dateTime lexical form: %r" % (text,))
+    t = datetime.datetime.fromisoformat(str(text).replace("Z", "+00:00"))
     off = t.utcoffset()
     return ("datetime", t.replace(tzinfo=None).isoformat(), None if off is None else off.total_seconds())
 
